@@ -163,7 +163,7 @@ READER_SEEDS = [
     "#f32(1.0 2.5)", "#s8(-1 2)", "#u16(1 65535)", "(((((((((()))))))))) ", "\"\\a\\b\"", "#\\x0", "#\\delete", "#e1e400", "1e400",
     "#x1/2", "#o777", "-0.0", "123456789012345678901234567890", "#e.5e-3", "#i#x10", "#x#i10", "'#(a #u8(1) \"s\" #\\c 1.5 (x . y))",
     "#0=#(a #0# #0#)", "#0=(#0# #0#)", "#0=#(#1=(#0# #1# . #1#) #0# #1#)", "#0=(#1=#(#0# #1#) . #0#)",
-    "#0=(#1=#(#0# #1#) #0#)", "#0=(#1=#(#0# #1#) .#0=(a b . #0#)#t #0#)",
+    "#0=(#1=#(#0# #1#) #0#)", "#0=(#1=#(#0# #1#) .#0=(a b . #0#)#t #0#)", "#0=(#1=#(#0# #1#) #1#)",
 ]
 MUT_TOKENS = ["(", ")", "#(", "#u8(", "'", "`", ",", ",@", ".", "#;", "#|", "|#", "\"", "|", "#\\", "#\\x", "\\x", ";", "#0=", "#0#", "#1=",
               "#99#", "#x", "#e", "#i", "#b", "#d", "#o", "/", "e", "+", "-", "i", "@", "#!", "#t", "#f", "\\", "\n", " ", "#", "..",
@@ -349,6 +349,10 @@ def run_items(b, exe, d, name, setup, items, item_ms=3000, timeout=240, max_roun
         ev = {"idx": last, "how": "timeout" if (r.timed_out or r.rc == 77) else r.describe(), "hard": r.rc == 77,
               "sanitizer": r.sanitizer_report(),
               "stderr": r.err[-2500:], "heapcheck": hc[:3]}
+        if r.rc == 77 and "#STUCK" in r.err:
+            stuck_blk = r.err[r.err.index("#STUCK"):]
+            # 20 000 frames of text are mostly one name: keep both ends
+            ev["stderr_full"] = stuck_blk[:4000] + stuck_blk[-6000:]
         if ev["how"] != "timeout" and not ev["sanitizer"] and not hc and last is not None:
             # a bare signal can also be the machine's doing (no page for the C stack under memory pressure, OOM killer): the
             # same process history is run once more and the event only counts when the process dies at the same item again
@@ -578,8 +582,18 @@ def check(rep, tier, seed):
     for (f2, nm, mode, text), recs, fatal2 in R.pmap(rerun_stuck, list(enumerate(chosen))):
         rep.case(("hang-recheck", f2, nm))
         if any(ev.get("hard") for ev in fatal2):
-            rep.violation({"check": "hang", "family": f2, "name": nm},
-                          {"item": text[:800], "mode": mode, "note": "no result after 2 x 30 s alone; the VM's interrupt flag was set after 30 s "
+            # where: the distinct named functions on the C stack at the moment the process gave up, innermost first
+            names = []
+            for ev in fatal2:
+                blk = ev.get("stderr_full", "")
+                if "#STUCK" in blk:
+                    for m in re.finditer(r"\((sexp_[A-Za-z0-9_]+)\+0x", blk[blk.index("#STUCK"):]):
+                        if not names or names[-1] != m.group(1):
+                            names.append(m.group(1))
+            names = [n_ for n_ in names if n_ not in ("sexp_apply", "sexp_eval_op", "sexp_eval_string", "sexp_load_op", "sexp_eval", "sexp_load")]
+            rep.violation({"check": "hang", "family": f2, "name": nm, "stuck_in": names[0] if names else "?", "via": "<-".join(names[1:3])},
+                          {"item": text[:800], "mode": mode, "c_stack": names[:12],
+                           "note": "no result after 2 x 30 s alone; the VM's interrupt flag was set after 30 s "
                            "and ignored, i.e. the item is looping in C code"})
     rep.extra["stuck_items_rechecked"] = len(chosen)
     rep.extra["stuck_items_seen"] = len(stuck)
@@ -784,13 +798,49 @@ def check(rep, tier, seed):
 """
     cb_scenario_out = ["(out 3 2 6 5)", "(1 2 3)", "(0 0)", "(thread-caught w)", "(caught eq)(2 one two)", "50"]
     cb_jobs.append(("scenario", "nested", None, cb_scenario))
+    # re-entering a continuation that was captured *inside* a callback after the C function has returned: R7RS would run the
+    # rest of the sort again; chibi cannot (the C frames are gone) and has to say so - what it must not do is end the program
+    # silently, hang or crash
+    cb_reenter = {
+        "reenter-sort": """(define saved #f) (define count 0)
+(define r (sort (list 3 1 2) (lambda (a b) (call/cc (lambda (k) (if (not saved) (set! saved k)) #t)) (< a b))))
+(write r) (newline)
+(set! count (+ count 1))
+(if (< count 3) (saved #f))
+(write (list 'done count)) (newline)
+""",
+        "reenter-hash": """(define saved #f) (define count 0)
+(define h (make-hash-table equal? (lambda (k . n) (call/cc (lambda (c) (if (not saved) (set! saved c)) #t)) 1)))
+(hash-table-set! h 'a 1)
+(write (hash-table-ref/default h 'a 0)) (newline)
+(set! count (+ count 1))
+(if (< count 3) (saved #f))
+(write (list 'done count)) (newline)
+""",
+        "reenter-in-thread": """(define saved #f) (define count 0)
+(define t (make-thread (lambda ()
+  (let ((r (sort (list 3 1 2) (lambda (a b) (call/cc (lambda (k) (if (not saved) (set! saved k)) #t)) (< a b)))))
+    (set! count (+ count 1))
+    (if (< count 3) (saved #f))
+    (list 'thread-done count r)))))
+(thread-start! t)
+(write (guard (e (#t 'join-raised)) (thread-join! t))) (newline)
+(write (list 'done count)) (newline)
+"""}
+    cb_reenter_full = {"reenter-sort": ["(1 2 3)", "(1 2 3)", "(1 2 3)", "(done 3)"], "reenter-hash": ["1", "1", "1", "(done 3)"],
+                       "reenter-in-thread": ["(thread-done 3 (1 2 3))", "(done 3)"]}
+    for nm, body in cb_reenter.items():
+        cb_jobs.append((nm, "reenter", None, cb_imports + "\n" + body))
 
     def run_cb(t):
         via, esc, exp, text = t
         pth = os.path.join(d, "cb-%s-%s.scm" % (via, esc))
         with open(pth, "w") as fh:
             fh.write(text)
-        return t, [(bb.variant, R.run(bb, ["-h8M/256M", pth], timeout=120)) for bb in (bh, b)]
+        # a step budget (H4) turns "spins for ever in the scheduler" into an event; it only counts while threads exist
+        return t, [(bb.variant, R.run(bb, ["-h8M/256M", pth], timeout=120,
+                                      env_extra={"CHIBI_VERIF_SCHED": "seed:1:500", "CHIBI_VERIF_MAXSLICES": "20000000"} if via == "reenter-in-thread" else None))
+                   for bb in (bh, b)]
 
     for (via, esc, exp, text), runs in R.pmap(run_cb, cb_jobs):
         for variant, r in runs:
@@ -804,6 +854,16 @@ def check(rep, tier, seed):
                 how = "process-died"
             elif via == "scenario":
                 how = None if (r.rc == 0 and lines == cb_scenario_out) else "wrong-output"
+            elif esc == "reenter":
+                full = cb_reenter_full[via]
+                if r.rc == 87 or r.log_lines("STEP-BUDGET"):
+                    how = "no-progress"
+                elif r.rc == 0 and lines == full:
+                    rep.count("callback_reentries_completed")
+                elif "re-entered" in r.err and (r.rc == 70 or (r.rc == 0 and lines[-1:] and lines[-1].startswith("(done"))):
+                    rep.count("callback_reentries_refused_with_an_error")     # said so, and the rest of the program ran or stopped
+                else:
+                    how = "wrong-output"     # ended silently, or printed something else
             elif esc == "uncaught":
                 # an uncaught error ends the script with the error report (exit 70) - or is swallowed by a custom port
                 ok = (r.rc == 70 and "ERROR" in r.err) or (r.rc == 0 and via in cb_swallowing and lines[-1:] == [cb_probe_out])
